@@ -111,6 +111,52 @@ static void free_names (char **nm, int n)
 	for (i = 0; i < n; i++) if (nm[i]) mpq_QSfree (nm[i]);
 }
 
+/* white-box: the raw column store (struct ILLmatrix of p->qslp) with structmap / rowmap / nzcount.
+ * IND lists matind[0 .. matsize); VAL lists matval of the slots inside a column, "_" elsewhere (values of
+ * free slots are not data).  A line longer than 400 characters is replaced by its FNV-1a digest unless full. */
+static void put_line (const char *tag, char *buf, size_t len, int n, int full)
+{
+	if (!full && len > 400)
+	{
+		unsigned long long hsh = 14695981039346656037ULL;
+		size_t i;
+		for (i = 0; i < len; i++) { hsh ^= (unsigned char) buf[i]; hsh *= 1099511628211ULL; }
+		printf ("%s #%016llx n=%d\n", tag, hsh, n);
+	}
+	else printf ("%s%s\n", tag, buf);
+}
+static void dump_matrix (mpq_QSdata * p, int full)
+{
+	mpq_ILLlpdata *q = p->qslp;
+	mpq_ILLmatrix *A = &q->A;
+	int j, k;
+	char *live, *buf = NULL;
+	size_t len = 0;
+	FILE *f;
+	printf ("MAT matcols=%d matrows=%d matsize=%d matfree=%d matcolsize=%d nstruct=%d nrows=%d ncols=%d nzcount=%d\n",
+		A->matcols, A->matrows, A->matsize, A->matfree, A->matcolsize, q->nstruct, q->nrows, q->ncols, q->nzcount);
+	fputs ("BEG", stdout); for (j = 0; j < A->matcols; j++) printf (" %d", A->matbeg[j]); putchar ('\n');
+	fputs ("CNT", stdout); for (j = 0; j < A->matcols; j++) printf (" %d", A->matcnt[j]); putchar ('\n');
+	f = open_memstream (&buf, &len);
+	for (k = 0; k < A->matsize; k++) fprintf (f, " %d", A->matind[k]);
+	fclose (f);
+	put_line ("IND", buf, len, A->matsize, full);
+	free (buf); buf = NULL; len = 0;
+	live = (char *) calloc (A->matsize + 1, 1);
+	for (j = 0; j < A->matcols; j++)
+		for (k = 0; k < A->matcnt[j]; k++)
+			if (A->matbeg[j] + k >= 0 && A->matbeg[j] + k < A->matsize) live[A->matbeg[j] + k] = 1;
+	f = open_memstream (&buf, &len);
+	for (k = 0; k < A->matsize; k++) { if (live[k]) { fputc (' ', f); qsx_print_q (f, A->matval[k]); } else fputs (" _", f); }
+	fclose (f);
+	put_line ("VAL", buf, len, A->matsize, full);
+	free (buf);
+	free (live);
+	fputs ("SMAP", stdout); for (j = 0; j < q->nstruct; j++) printf (" %d", q->structmap[j]); putchar ('\n');
+	fputs ("RMAP", stdout); for (j = 0; j < q->nrows; j++) printf (" %d", q->rowmap[j]); putchar ('\n');
+	puts ("END");
+}
+
 /* canonical dump through the query API, with every return code visible */
 static void dump_user (mpq_QSdata * p)
 {
@@ -1321,6 +1367,7 @@ static void exec_tokens (void)
 	else if (!strcmp (OP, "ACCESS")) { NEEDH (h); do_access (H[h]); }
 	else if (!strcmp (OP, "DUMP")) { NEEDH (h); dump_user (H[h]); }
 	else if (!strcmp (OP, "DUMPI")) { NEEDH (h); qsx_dump_ilp (stdout, H[h]); puts ("END"); }
+	else if (!strcmp (OP, "DUMPM") || !strcmp (OP, "DUMPMF")) { NEEDH (h); dump_matrix (H[h], OP[5] == 'F'); }
 	else if (!strcmp (OP, "DUMPALL"))
 	{
 		/* everything C07 compares before/after: problem, parameters, basis, solution, state */
